@@ -249,6 +249,10 @@ def _mask_worker(case):
     try:
         ops = nc.make_ops(case["modes"])
         x = nc.build_impl(case["x"], ops)
+        if x.is_zero:
+            # every coefficient is sympy's literal 0: a sympy Matrix stores such an element as the number 0
+            # (the term list is lost), so there are no keys to compare; the operator is zero on both sides
+            return dict(ok=True, skip=True, keys=[], nterms=len(x.args[1]))
         r = impl_mask(x, case["conds"], case["keep"], ops)
         return dict(ok=True, keys=[[int(p) for p in k] for k, _ in r.args[1]], nterms=len(x.args[1]))
     except Exception as e:  # noqa: BLE001
@@ -282,9 +286,13 @@ def tie_mask(ctx, ncases=None):
     with multiprocessing.Pool(8 if ctx.quick else 16) as pool:
         res = pool.map(_mask_worker, cases, chunksize=1)
     terms, kept, disagreements = [], [], []
+    skipped = 0
     for c, r in zip(cases, res):
         if not r["ok"]:
             disagreements.append(dict(what="apply_mask_to_operator raised: " + mask_str(c), input=dict(kind="mask", case=c), impl=r["err"], model="Ok"))
+            continue
+        if r.get("skip"):
+            skipped += 1
             continue
         terms.append(coq_mask_case(c, r["keys"]))
         kept.append((c, r))
@@ -300,7 +308,8 @@ def tie_mask(ctx, ncases=None):
         rule="distinct (modes, x, mask, keep) where the mask keeps some but not all terms of x",
         samples=[mask_str(c) for c, _ in kept[:4]],
         distribution=dict(symbolic=sum(1 for c, _ in kept if any(p[0] != "eq" for cond in c["conds"] for p in cond)),
-                          empty_mask=sum(1 for c, _ in kept if not c["conds"]), keep_true=sum(1 for c, _ in kept if c["keep"])),
+                          empty_mask=sum(1 for c, _ in kept if not c["conds"]), keep_true=sum(1 for c, _ in kept if c["keep"]),
+                          skipped_zero_operator=skipped),
         disagreements=disagreements,
     )
 
